@@ -185,7 +185,7 @@ func main() {
 						atomic.AddInt64(&encodes, 1)
 						if err != nil {
 							outcomes.Add("fidelity VIOLATION write-error")
-							r.Violate("C07/fidelity/write-error/cols="+u.c.classes(), "Encoder.Write failed on a valid frame: "+err.Error(),
+							r.Violate("C07/fidelity/write-error:"+normalize(err.Error()), "Encoder.Write failed on a valid frame: "+err.Error(),
 								map[string]interface{}{"columns": u.c.String(), "batch_lengths": bs, "phase": cfg.phase, "writer_view": cfg.wview})
 							e = nil
 						}
@@ -202,7 +202,7 @@ func main() {
 					for _, ds := range dstSeqs {
 						if f := readBack(e, d, ds, cfg.dview, cfg.reader, &st); f != nil {
 							outcomes.Add("fidelity VIOLATION " + f.oracle)
-							r.Violate("C07/fidelity/"+f.oracle+"/cols="+u.c.classes(),
+							r.Violate("C07/fidelity/"+f.oracle,
 								fmt.Sprintf("round trip of columns (%s), batches %v, destination lengths %v %s: %s", u.c, bs, ds, cfg, f.oracle), f.detail)
 						}
 					}
